@@ -28,32 +28,65 @@ func DefaultComparePreRelease[T1, T2 constraint.ParserInput](a T1, b T2) int {
 	} else if lb == 0 {
 		return -1
 	}
-	if la > lb {
-		return comparePreRelease(b, a)
-	}
-	return -comparePreRelease(a, b)
+	return comparePreRelease(string(a), string(b))
 }
 
-func comparePreRelease[T1, T2 constraint.ParserInput](shorter T1, longer T2) int {
-	s, l := string(shorter), string(longer)
-	longerRunes := []rune(l)
-	for i, sr := range s {
-		if lr := longerRunes[i]; sr != lr {
-			return comparePreReleaseSuffix(s[i:], l[i:])
+// comparePreRelease compares dot separated identifiers from left to right.
+// If all of the preceding identifiers are equal, larger set of identifiers has higher precedence.
+func comparePreRelease(a, b string) int {
+	for {
+		aIdent, aRest, aMore := strings.Cut(a, ".")
+		bIdent, bRest, bMore := strings.Cut(b, ".")
+		if c := comparePreReleaseIdent(aIdent, bIdent); c != 0 {
+			return c
+		}
+		if !aMore || !bMore {
+			if aMore {
+				return 1
+			}
+			if bMore {
+				return -1
+			}
+			return 0
+		}
+		a, b = aRest, bRest
+	}
+}
+
+// comparePreReleaseIdent compares two identifiers.
+// Numeric identifiers are compared numerically and always have lower precedence than alphanumeric identifiers.
+// Alphanumeric identifiers are compared in ASCII order, only theirs differing digit suffixes are compared numerically (so a01 is equal to a1).
+func comparePreReleaseIdent(a, b string) int {
+	aNum := a != "" && digitsOrEmpty.MatchString(a)
+	bNum := b != "" && digitsOrEmpty.MatchString(b)
+	if aNum && bNum {
+		return comparePreReleaseSuffix(a, b)
+	}
+	if aNum {
+		return -1
+	}
+	if bNum {
+		return 1
+	}
+	i := 0
+	for i < len(a) && i < len(b) && a[i] == b[i] {
+		i++
+	}
+	return comparePreReleaseSuffix(a[i:], b[i:])
+}
+
+func comparePreReleaseSuffix(a string, b string) int {
+	if digitsOrEmpty.MatchString(a) && digitsOrEmpty.MatchString(b) {
+		a = strings.TrimLeft(a, "0")
+		b = strings.TrimLeft(b, "0")
+		if len(a) != len(b) {
+			if len(a) < len(b) {
+				return -1
+			}
+			return 1
 		}
 	}
-	if len(s) == len(l) {
-		return 0
-	}
-	return 1
-}
-
-func comparePreReleaseSuffix(shorter string, longer string) int {
-	if digitsOrEmpty.MatchString(shorter) && digitsOrEmpty.MatchString(longer) {
-		shorter = strings.TrimLeft(shorter, "0")
-		longer = strings.TrimLeft(longer, "0")
-	}
-	return -strings.Compare(shorter, longer)
+	return strings.Compare(a, b)
 }
 
 // CompareVersion compares passed versions.
